@@ -494,17 +494,183 @@ impl<T: CellType> Cell<T> {
 
 //@@ item src/xlsb/cells_reader.rs struct XlsbCellsReader
 
+impl<'a> XlsbCellsReader<'a> {
+    pub closed spec fn rem(&self) -> Seq<u8> { self.iter.rem() }
+    pub closed spec fn cur_row(&self) -> u32 { self.row }
+    pub closed spec fn fmts(&self) -> Seq<CellFormat> { self.formats@ }
+    pub closed spec fn strs(&self) -> Seq<String> { self.strings@ }
+    pub closed spec fn f1904(&self) -> bool { self.is_1904 }
+}
+
+// TRUSTED: A-float -- IEEE-754 f64 division is a total, deterministic function (`/` on f64 never panics); vstd leaves
+// `div_req`/`obeys_div_spec` of f64 unspecified, which would make every float division an unprovable precondition.
+#[verifier::external_body]
+pub proof fn axiom_f64_div()
+    ensures <f64 as vstd::std_specs::ops::DivSpec<f64>>::obeys_div_spec(), forall|a: f64, b: f64| #[trigger] vstd::std_specs::ops::DivSpec::div_req(a, b),
+{}
+pub open spec fn fdiv(a: f64, b: f64) -> f64 { vstd::std_specs::ops::DivSpec::div_spec(a, b) }
+
+/// [MS-XLSB] 2.5.97.2 BErr / [MS-XLS] 2.5.10: the eight error codes
+pub open spec fn berr(e: u8) -> Option<CellErrorType> {
+    if e == 0x00 { Some(CellErrorType::Null) }
+    else if e == 0x07 { Some(CellErrorType::Div0) }
+    else if e == 0x0F { Some(CellErrorType::Value) }
+    else if e == 0x17 { Some(CellErrorType::Ref) }
+    else if e == 0x1D { Some(CellErrorType::Name) }
+    else if e == 0x24 { Some(CellErrorType::Num) }
+    else if e == 0x2A { Some(CellErrorType::NA) }
+    else if e == 0x2B { Some(CellErrorType::GettingData) }
+    else { None }
+}
+
+// ---- [MS-XLSB] 2.5.122 RkNumber (= BIFF8 [MS-XLS] 2.5.217): bit 0 fX100, bit 1 fInt, bits 2..31 num;
+// fInt: num is a signed 30-bit integer; otherwise num is the 30 most significant bits of an IEEE double whose other 34 bits are 0
+pub open spec fn rk_x100(raw: int) -> bool { raw % 2 == 1 }
+pub open spec fn rk_is_int(raw: int) -> bool { (raw / 2) % 2 == 1 }
+pub open spec fn rk_num30(raw: int) -> int { raw / 4 }
+pub open spec fn rk_int(raw: int) -> int { if rk_num30(raw) >= 0x2000_0000 { rk_num30(raw) - 0x4000_0000 } else { rk_num30(raw) } }
+pub open spec fn rk_float_bits(raw: int) -> int { rk_num30(raw) * 0x4_0000_0000 }
+
+/// the cell record kinds of the property: BrtCellRk 2, BrtCellError 3, BrtCellBool 4, BrtCellReal 5, BrtCellSt 6, BrtCellIsst 7,
+/// BrtFmlaString 8, BrtFmlaNum 9, BrtFmlaBool 0xA, BrtFmlaError 0xB   (BrtCellBlank 1 is an empty cell: not reported)
+pub open spec fn is_cell_kind(typ: int) -> bool { 2 <= typ <= 0x0B }
+pub const ROW_MAX: u32 = 1048575;
+
+pub enum Scan {
+    /// the next cell record: under row `row`, kind `typ`, payload, stream after the record
+    Cell { row: u32, typ: int, payload: Seq<u8>, rest: Seq<u8> },
+    /// BrtEndSheetData met first
+    End,
+    /// the stream ends (or a record is truncated) first
+    Truncated,
+    /// a BrtRowHdr shorter than 4 bytes or with a row outside 0..=1048575: outside the property's domain
+    Malformed,
+}
+/// what the next cell of the record stream s is, `row` being the row of the last BrtRowHdr: written from the property text
+/// (cell kinds report a value, BrtRowHdr 0x0000 sets the row, BrtEndSheetData 0x0092 ends, any other kind is passed over whole)
+pub open spec fn scan(s: Seq<u8>, row: u32) -> Scan decreases s.len() {
+    if !rec_ok(s) || rec_rest(s).len() >= s.len() { Scan::Truncated }   // (second disjunct never true: lemma_rec_total)
+    else if is_cell_kind(rec_typ(s)) { Scan::Cell { row, typ: rec_typ(s), payload: rec_payload(s), rest: rec_rest(s) } }
+    else if rec_typ(s) == 0x0000 {
+        if rec_payload(s).len() < 4 || le32(rec_payload(s)) > ROW_MAX { Scan::Malformed }
+        else { scan(rec_rest(s), le32(rec_payload(s)) as u32) }
+    }
+    else if rec_typ(s) == 0x0092 { Scan::End }
+    else { scan(rec_rest(s), row) }
+}
+
+/// the payload is long enough for its kind ([MS-XLSB] 2.4.x: Cell structure 8 bytes, then the value), shared string index in range
+pub open spec fn cell_wf(typ: int, p: Seq<u8>, nstr: int) -> bool {
+    if typ == 2 { p.len() >= 12 }
+    else if typ == 3 || typ == 0xB || typ == 4 || typ == 0xA { p.len() >= 9 }
+    else if typ == 5 || typ == 9 { p.len() >= 16 }
+    else if typ == 6 || typ == 8 { p.len() >= 12 }
+    else if typ == 7 { p.len() >= 12 && le32(p.subrange(8, 12)) < nstr }
+    else { false }
+}
+/// the record carries a value the reader must reject with an error: unknown BErr code, or a string longer than its record
+pub open spec fn cell_rejected(typ: int, p: Seq<u8>) -> bool {
+    ((typ == 3 || typ == 0xB) && berr(p[8]) is None)
+    || ((typ == 6 || typ == 8) && p.len() < 12 + 2 * le32(p.subrange(8, 12)))
+}
+/// v is the value stored in the cell record (typ, p)
+pub open spec fn cell_val_ok(typ: int, p: Seq<u8>, fmts: Seq<CellFormat>, strs: Seq<String>, is_1904: bool, v: DataRef) -> bool {
+    let fmt = cell_format_spec(fmts, p);
+    if typ == 3 || typ == 0xB { berr(p[8]) is Some && v == DataRef::Error(berr(p[8])->Some_0) }
+    else if typ == 4 || typ == 0xA { v == DataRef::Bool(p[8] != 0) }
+    else if typ == 5 || typ == 9 { v == wrap_f64(f64_of_bits(le64(p.subrange(8, 16))), fmt, is_1904) }
+    else if typ == 6 || typ == 8 { v is String && v->String_0@ == dec16(p.subrange(12, 12 + 2 * le32(p.subrange(8, 12)))) }
+    else if typ == 7 { v is SharedString && v->SharedString_0@ == strs[le32(p.subrange(8, 12))]@ }
+    else if typ == 2 {
+        let raw = le32(p.subrange(8, 12));
+        if rk_is_int(raw) {
+            if rk_x100(raw) { exists|x: f64| v == wrap_f64(x, fmt, is_1904) }   // num/100: int->float conversion is uninterpreted in Verus
+            else { v == DataRef::Int(rk_int(raw) as i64) }
+        } else {
+            if rk_x100(raw) { v == wrap_f64(fdiv(f64_of_bits(rk_float_bits(raw)), 100.0f64), fmt, is_1904) }
+            else { v == wrap_f64(f64_of_bits(rk_float_bits(raw)), fmt, is_1904) }
+        }
+    }
+    else { false }
+}
+/// a cell record of a kind the reader reports (BrtFmlaError is handled by its own clause), well-formed
+pub open spec fn good_cell(sc: Scan, nstr: int) -> bool { sc is Cell && sc->typ != 0xB && cell_wf(sc->typ, sc->payload, nstr) }
+pub open spec fn is_date_fmt(f: Option<CellFormat>) -> bool { f == Some(CellFormat::DateTime) || f == Some(CellFormat::TimeDelta) }
+
 //@@ impl src/xlsb/cells_reader.rs XlsbCellsReader
 //@@ fn src/xlsb/cells_reader.rs XlsbCellsReader::next_cell props=C03 entry ret=r
 //@@ sig
+    ensures
+        //# C03.reader_frame
+        final(self).fmts() == old(self).fmts() && final(self).strs() == old(self).strs() && final(self).f1904() == old(self).f1904(),
+        //# C03.cell_some
+        ({ let sc = scan(old(self).rem(), old(self).cur_row()); good_cell(sc, old(self).strs().len() as int) && !cell_rejected(sc->typ, sc->payload)
+            ==> r is Ok && r->Ok_0 is Some }),
+        //# C03.cell_pos
+        ({ let sc = scan(old(self).rem(), old(self).cur_row()); good_cell(sc, old(self).strs().len() as int) && !cell_rejected(sc->typ, sc->payload)
+            ==> r is Ok && r->Ok_0 is Some && r->Ok_0->Some_0.p() == (sc->row, le32(sc->payload) as u32) }),
+        //# C03.cell_value
+        ({ let sc = scan(old(self).rem(), old(self).cur_row()); good_cell(sc, old(self).strs().len() as int) && !cell_rejected(sc->typ, sc->payload)
+            ==> r is Ok && r->Ok_0 is Some && cell_val_ok(sc->typ, sc->payload, old(self).fmts(), old(self).strs(), old(self).f1904(), r->Ok_0->Some_0.v()) }),
+        //# C03.cell_frame
+        ({ let sc = scan(old(self).rem(), old(self).cur_row()); good_cell(sc, old(self).strs().len() as int) && !cell_rejected(sc->typ, sc->payload)
+            ==> final(self).rem() == sc->rest && final(self).cur_row() == sc->row }),
+        //# C03.cell_rejected_err
+        ({ let sc = scan(old(self).rem(), old(self).cur_row()); good_cell(sc, old(self).strs().len() as int) && cell_rejected(sc->typ, sc->payload)
+            ==> r is Err }),
+        //# C03.end_none
+        scan(old(self).rem(), old(self).cur_row()) is End ==> r is Ok && r->Ok_0 is None,
+        //# C03.truncated_err
+        scan(old(self).rem(), old(self).cur_row()) is Truncated ==> r is Err,
+        // "A formula cell contributes its cached value exactly like a constant cell of the same type": BrtFmlaError like BrtCellError
+        //# C03.fmla_error_cached_value
+        ({ let sc = scan(old(self).rem(), old(self).cur_row());
+            sc is Cell && sc->typ == 0xB && cell_wf(sc->typ, sc->payload, old(self).strs().len() as int) && !cell_rejected(sc->typ, sc->payload)
+            ==> r is Ok && r->Ok_0 is Some && r->Ok_0->Some_0.p() == (sc->row, le32(sc->payload) as u32)
+                && cell_val_ok(sc->typ, sc->payload, old(self).fmts(), old(self).strs(), old(self).f1904(), r->Ok_0->Some_0.v()) }),
+        // C10 "DateTime iff the style is a date/time format", for the numeric kinds
+        //# C10.num_datetime_iff_date_format
+        ({ let sc = scan(old(self).rem(), old(self).cur_row());
+            sc is Cell && (sc->typ == 2 || sc->typ == 5 || sc->typ == 9) && cell_wf(sc->typ, sc->payload, old(self).strs().len() as int)
+            ==> r is Ok && r->Ok_0 is Some && (r->Ok_0->Some_0.v() is DateTime <==> is_date_fmt(cell_format_spec(old(self).fmts(), sc->payload))) }),
 //@@ replace /let value = loop/ Verus has no break-with-value: `let x = loop { .. break v; };` desugared into `let out; loop { .. { out = v; break; } }; let x = out;`
 let verif_out; loop
 //@@ replace /break value;/ (second half of the break-with-value desugaring)
 { verif_out = value; break; }
 //@@ before /let col = /
         let value = verif_out;
+//@@ body
+        let ghost s0 = self.iter.rem();
+        let ghost row0 = self.row;
+        proof { axiom_f64_div(); }
 //@@ loop 0
+            invariant_except_break
+                (scan(s0, row0) is Cell && scan(s0, row0)->typ == 0xB) || scan(s0, row0) is Malformed || scan(s0, row0) == scan(self.iter.rem(), self.row),
+            invariant
+                s0 == old(self).iter.rem(), row0 == old(self).row,
+                self.formats@ == old(self).formats@, self.strings@ == old(self).strings@, self.is_1904 == old(self).is_1904,
+            ensures
+                self.formats@ == old(self).formats@, self.strings@ == old(self).strings@, self.is_1904 == old(self).is_1904,
+                ({ let sc = scan(s0, row0); good_cell(sc, self.strings@.len() as int) ==>
+                    !cell_rejected(sc->typ, sc->payload) && self.iter.rem() == sc->rest && self.row == sc->row && self.buf@.len() >= 4
+                    && self.buf@[0] == sc->payload[0] && self.buf@[1] == sc->payload[1] && self.buf@[2] == sc->payload[2] && self.buf@[3] == sc->payload[3]
+                    && cell_val_ok(sc->typ, sc->payload, self.formats@, self.strings@, self.is_1904, verif_out) }),
+                ({ let sc = scan(s0, row0); sc is Cell && (sc->typ == 2 || sc->typ == 5 || sc->typ == 9) && cell_wf(sc->typ, sc->payload, self.strings@.len() as int)
+                    ==> (verif_out is DateTime <==> is_date_fmt(cell_format_spec(self.formats@, sc->payload))) }),
             decreases self.iter.rem().len(),
+//@@ before /DataRef::Int\(v\)/
+                    assert(false);
+//@@ before /self\.buf\.clear\(\)/
+            let ghost cur = self.iter.rem();
+            let ghost row_h = self.row;
+//@@ before /let value = match self\.typ/
+            proof {
+                lemma_rec_read(cur);
+                assert(self.buf@ =~= rec_payload(cur));
+                assert(self.typ as int == rec_typ(cur));
+                assert(self.iter.rem() == rec_rest(cur));
+            }
+            let ghost p = self.buf@;
 //@@ end
 //@@ endimpl
 
